@@ -123,7 +123,7 @@ class SigmaCorrelationCondition:
         if unknown_keys:
             raise sigma_exceptions.SigmaCorrelationConditionError(
                 "Sigma correlation condition contains invalid items: "
-                + ", ".join(sorted(unknown_keys)),
+                + ", ".join(sorted(str(key) for key in unknown_keys)),
                 source=source,
             )
 
@@ -558,12 +558,14 @@ class SigmaCorrelationRule(SigmaRuleBase, ProcessingItemTrackingMixin):
             if isinstance(rules_value, str):
                 # Simple rule reference
                 rules = [SigmaRuleReference(rules_value)]
-            elif isinstance(rules_value, list):
+            elif isinstance(rules_value, list) and all(
+                isinstance(rule, str) for rule in rules_value
+            ):
                 rules = [SigmaRuleReference(rule) for rule in rules_value]
             else:
                 errors.append(
                     sigma_exceptions.SigmaCorrelationRuleError(
-                        "Rule reference must be plain string or list.", source=source
+                        "Rule reference must be plain string or list of strings.", source=source
                     )
                 )
         elif correlation_type not in (
